@@ -66,7 +66,12 @@ Definition fstep (f : fnode) (l : flabel) : fnode * list nout :=
         | Some e => (f, [ORaise e])                     (* the constructor raised: listener state untouched *)
         | None =>
             let m := lmsg_of data p in
-            let msgs' := d_set bytes_eqb (f_msgs f) (mkey addr data) (qmsg_of p now, m_id p) in
+            (* a truncated query that is already waiting in this source's reassembly list (same bytes; it got past the duplicate guard because
+               it carries a QU question) is ignored: the packet object that waits - with ITS arrival time - stays *)
+            let waiting := match d_get text_eqb (ls_deferred (f_ls f)) addr with
+                           | Some l => existsb (fun x => bytes_eqb (lm_data x) data) l | None => false end in
+            let msgs' := if waiting then f_msgs f
+                         else d_set bytes_eqb (f_msgs f) (mkey addr data) (qmsg_of p now, m_id p) in
             let '(ls', o) := datagram (f_ls f) m addr now (nonempty (g_services (n_reg (f_node f)))) tc in
             match o with
             | OResponse _ =>
